@@ -31,6 +31,26 @@ CHECKS = {
             'Trusted: conversion of a ring element to complex128 (float64 roots of unity) and sqrt of the rational norm tag; '
             'tolerance 1e-9*(1+sum|f|). Inverse is checked on full-period geometries only (the statement says no more).',
             'exact Z[zeta_N] evaluation of the defining sum by TLC as oracle; ring theorems model-checked'),
+    'C02': ('model_checking',
+            'Optics.tla defines propagation on pixel SETS (centred window or mask bounding box, Grid convention) and the value '
+            'of every evaluated sample as the unitary Fraunhofer sum in Z[zeta_N] with alpha computed from rational physical '
+            'parameters; TLC evaluates seeded programs Wavefront*Pupil -> propagate_dft [-> *Image -> propagate_dft] and lentil '
+            'executes them through the public API; field (value inside, exact 0 outside the window), intensity, shape, pixel '
+            'scale, wavelength, focal length and ptype are compared after every step.',
+            'DESIGN.md 5 C02',
+            'Trusted: harness/optics.py (JSON<->lentil objects, ring->complex128). Supports whose bounding box is one sample are '
+            'excluded (one-element fields are infinite constants in lentil, recorded under C06/C07).',
+            'exact Fraunhofer oracle in TLA+ evaluated by TLC, programs replayed into lentil'),
+    'C04': ('model_checking',
+            'Same specification; tilt elements (angular, first-order dispersive) are folded into a displacement in output samples '
+            'with exact rationals, fit_tilt is specified through a least-squares precondition that TLC checks (FitPre), and the shift '
+            'theorem (ramp in the beam == displaced evaluation) is model-checked in the ring. Scenarios are written in five '
+            'representations (OPD ramp, Tilt plane, Wavefront(tilt=), fit_tilt in place / copy), a refit history and every '
+            'ordering of three tilt elements; each is compared with the exact field and with the other representations.',
+            'DESIGN.md 5 C04',
+            'Trusted: harness/optics.py. Exact non-zero integer displacements only on all-dyadic geometries (np.fix ties are '
+            'do-not-care). Higher-order dispersive elements (numerical root finding) are outside the model.',
+            'exact shift-theorem oracle in TLA+ (TLC), representation programs replayed into lentil'),
     'C06': ('model_checking',
             'FieldAlg.tla defines multiply / merge / reduce / insert and the extent queries on the embedding of a field in '
             'Z^2 (pixel sets, pointwise Gaussian-integer arithmetic). TLC checks the rectangle calculus against pixel sets '
